@@ -91,7 +91,7 @@ for _n, _t, _to in [(2, ("quick", "thorough"), 120), (3, ("quick", "thorough"), 
                     (5, ("thorough",), 3400)]:
     _mk_markup(_n, _t, _to)
 
-_ANSI_SIGMA = "\x1b[]m;18\\a" + SUP2
+_ANSI_SIGMA = "\x1b[]m;148\\a" + SUP2
 
 
 def _mk_ansi(n, tiers, timeout):
@@ -100,7 +100,7 @@ def _mk_ansi(n, tiers, timeout):
 
     @xh("C14-ansi-decoder-len%d" % n, pre=pre, tiers=tiers, timeout=timeout, kind="S", stubs=["S2"],
         functions=["rich/ansi.py:AnsiDecoder.decode", "rich/ansi.py:AnsiDecoder.decode_line", "rich/ansi.py:_ansi_tokenize"],
-        bounds="AnsiDecoder().decode(s) for every s of length %d over {ESC [ ] m ; 1 8 \\ a U+00B2}: never raises" % n)
+        bounds="AnsiDecoder().decode(s) for every s of length %d over {ESC [ ] m ; 1 4 8 \\ a U+00B2}: never raises" % n)
     def h(s: str) -> bool:
         out = list(AnsiDecoder().decode(s))
         return len(out) <= 1
